@@ -37,6 +37,9 @@ use crate::{
     PeerId, DEFAULT_CHANNEL_SIZE,
 };
 
+#[cfg(litep2p_verif)]
+use crate::verif::futures_timer;
+
 use bytes::BytesMut;
 use futures::{future::BoxFuture, stream::FuturesUnordered, StreamExt};
 use multiaddr::Multiaddr;
